@@ -122,6 +122,20 @@ def run(chk):
         cli_cases.append((argv, probe(F)))
     res = run_cli(tuc, cli_cases)
     model = run_model([case_line(flags_case(F)) for F in sets])
+    # "fails on the first record" — also when that record is empty (or trimmed to empty): nothing may be printed first
+    ff_sets = [F for F in sets if fails_first(F) and not conflict(F) and F["M"] == "absent"]
+    ff_cases = []
+    for F in ff_sets:
+        argv = [a for g in groups(F) for a in g]
+        eol = b"\0" if F["z"] else b"\n"
+        ff_cases.append((argv, eol + probe(F)))
+        ff_cases.append((argv, b"---" + eol + probe(F)))
+    for (argv, inp), (st, out) in zip(ff_cases, run_cli(tuc, ff_cases)):
+        chk.evaluations += 1
+        chk.count("failFirst:empty-first-record")
+        if st != "1" or out != b"":
+            chk.report_oracle("-e with -j/-p and neither -r nor --json must fail on the first record, even an empty one, before printing anything",
+                              {"argv": argv, "stdin_hex": inp.hex(), "exit": st, "stdout_hex": out.hex()})
     for k, F in enumerate(sets):
         (st0, out0), (st1, out1) = res[2 * k], res[2 * k + 1]
         argv = cli_cases[2 * k][0]
